@@ -120,3 +120,14 @@ Theorem C07_0D_steps_stay_between_product_and_shelf :
       Rmin T Tsh <= fst (solid0 Rops P area Tsh T w) <= Rmax T Tsh).
 Proof. intros. split; [apply cool0_between|apply solid0_between]. Qed.
 Print Assumptions C07_0D_steps_stay_between_product_and_shelf.
+
+(* 0D, any number of solidification steps: temperature in [lo, hi] with hi <= T_eq_l, ice fraction in [0, water fraction] *)
+Theorem C07_0D_solidification_run_bounds :
+  forall (P : @p1d R) area lo hi, 0 < q_mass P -> 0 < q_mw P -> 0 < q_ms P * (q_kf P / q_Ms P) ->
+  q_Teql P = q_Tm P - q_ms P * (q_kf P / q_Ms P) / q_mw P -> hi <= q_Teql P -> 0 <= q_Dh P * q_kf P * q_ms P / q_Ms P ->
+  (forall w, 0 <= w <= q_mw P / q_mass P ->
+     0 < (q_cps P * (q_ms P / q_mass P) + q_cpi P * w + q_cpw P * (1 - q_ms P / q_mass P - w)) * q_rho P * q_V P
+     /\ 0 <= q_dt P * (area * q_K P) <= (q_cps P * (q_ms P / q_mass P) + q_cpi P * w + q_cpw P * (1 - q_ms P / q_mass P - w)) * q_rho P * q_V P) ->
+  forall shelf s, inv0 P lo hi s -> List.Forall (fun Tsh => lo <= Tsh <= hi) shelf -> inv0 P lo hi (fold_left (step0 P area) shelf s).
+Proof. intros. apply zeroD_solid_run_bounds; assumption. Qed.
+Print Assumptions C07_0D_solidification_run_bounds.
